@@ -53,6 +53,7 @@ pub fn all_probes<H: HB>(prop: &str, universe: &[u32]) -> Vec<Box<dyn Probe<H>>>
     match prop {
         "C06" => vec![Box::new(IterPrograms { which: vec![It::Sorted], extra_len: 2, sorted_vecs: true, adaptors: false, full_upto: 12 })],
         "C06d" => vec![Box::new(IterPrograms { which: vec![It::Sorted], extra_len: 2, sorted_vecs: true, adaptors: false, full_upto: 7 })],
+        "C13d" => vec![Box::new(IterPrograms { which: vec![It::Iter, It::IntoIter, It::Drain, It::Sorted], extra_len: 1, sorted_vecs: false, adaptors: false, full_upto: 6 })],
         "C09" => vec![Box::new(IterMutPrograms { extra_len: 3, prios, lite: false })],
         "C09m" => vec![Box::new(IterMutPrograms { extra_len: 1, prios, lite: true })],
         "C13m" => vec![Box::new(IterPrograms { which: vec![It::Iter, It::IntoIter, It::Drain, It::Sorted], extra_len: 1, sorted_vecs: false, adaptors: false, full_upto: 12 })],
@@ -359,6 +360,17 @@ impl IterPrograms {
             if w != It::Sorted && fwd.len() != n {
                 return Err(format!("{w:?}: a full forward traversal yields {} elements of {n}", fwd.len()));
             }
+            if self.extra_len > 1 {
+                match w {
+                    It::Iter | It::IterRef => {
+                        cases += check_consumers::<(&Item, &Prio)>("iter()", &mut || q.q_iter(), &fwd, back, &|t| t.0.key)?;
+                    }
+                    It::IntoIter => {
+                        cases += check_consumers::<(Item, Prio)>("into_iter()", &mut || q.clone().q_into_iter(), &fwd, back, &|t| t.0.key)?;
+                    }
+                    _ => {}
+                }
+            }
             let mut progs = programs_upto(len, back, self.full_upto);
             if w != It::Sorted && self.extra_len > 1 {
                 progs.extend(nth_programs(n, back));
@@ -461,6 +473,60 @@ fn check_adaptors(out: AdOut, n: usize, cases: &mut u64) -> Result<(), String> {
     Ok(())
 }
 
+/// By-value consumers after a prefix of plain calls: `last()` must be the last remaining element of
+/// the forward order (None when exhausted), `count()` the number of remaining elements.
+fn check_consumers<'a, T>(
+    what: &str,
+    mk: &mut dyn FnMut() -> Box<dyn DynIter<T> + 'a>,
+    fwd: &[u32],
+    back: bool,
+    key_of: &dyn Fn(&T) -> u32,
+) -> Result<u64, String> {
+    let n = fwd.len();
+    let mut cases = 0;
+    let mut prefixes: Vec<Vec<St>> = vec![];
+    for j in 0..=(n + 1) {
+        prefixes.push(vec![St::Next; j]);
+        if back && j > 0 {
+            prefixes.push(vec![St::Back; j]);
+            let mut mixed = vec![St::Next; j];
+            mixed[j - 1] = St::Back;
+            prefixes.push(mixed);
+        }
+    }
+    for pre in &prefixes {
+        let nf = pre.iter().filter(|s| **s == St::Next).count().min(n);
+        let nb = pre.iter().filter(|s| **s == St::Back).count().min(n - nf);
+        let rest: &[u32] = &fwd[nf..n - nb];
+        for which in 0..2 {
+            cases += 1;
+            let mut it = mk();
+            for st in pre {
+                match st {
+                    St::Next => {
+                        it.nx();
+                    }
+                    _ => {
+                        it.nb();
+                    }
+                }
+            }
+            if which == 0 {
+                let got = it.last_().map(|t| key_of(&t));
+                if got != rest.last().copied() {
+                    return Err(format!("{what}: after {pre:?}, last() yields item {got:?}; the last remaining element of the forward order {fwd:?} is {:?}", rest.last()));
+                }
+            } else {
+                let got = it.count_();
+                if got != rest.len() {
+                    return Err(format!("{what}: after {pre:?}, count() = {got} but {} elements remain", rest.len()));
+                }
+            }
+        }
+    }
+    Ok(cases)
+}
+
 /// C09: every next/next_back program on iter_mut, references kept alive, written through at the end.
 pub struct IterMutPrograms {
     pub extra_len: usize,
@@ -489,6 +555,47 @@ impl IterMutPrograms {
         }
         if fwd.len() != n {
             return Err(format!("iter_mut: a full forward traversal yields {} elements of {n}", fwd.len()));
+        }
+        if !self.lite {
+            // by-value consumers: each needs its own clone to borrow from
+            let pres: Vec<Vec<St>> = {
+                let mut v = vec![];
+                for j in 0..=(n + 1) {
+                    v.push(vec![St::Next; j]);
+                    if back && j > 0 {
+                        v.push(vec![St::Back; j]);
+                    }
+                }
+                v
+            };
+            for pre in &pres {
+                let nf = pre.iter().filter(|s| **s == St::Next).count().min(n);
+                let nb = pre.iter().filter(|s| **s == St::Back).count().min(n - nf);
+                let rest: &[u32] = &fwd[nf..n - nb];
+                for which in 0..2 {
+                    cases += 1;
+                    let mut c = q.clone();
+                    let mut it = c.q_iter_mut();
+                    for st in pre {
+                        if *st == St::Next {
+                            it.nx();
+                        } else {
+                            it.nb();
+                        }
+                    }
+                    if which == 0 {
+                        let got = it.last_().map(|t| t.0.key);
+                        if got != rest.last().copied() {
+                            return Err(format!("iter_mut(): after {pre:?}, last() yields item {got:?}; the last remaining element of the forward order {fwd:?} is {:?}", rest.last()));
+                        }
+                    } else {
+                        let got = it.count_();
+                        if got != rest.len() {
+                            return Err(format!("iter_mut(): after {pre:?}, count() = {got} but {} elements remain", rest.len()));
+                        }
+                    }
+                }
+            }
         }
         let mut all: Vec<Vec<St>> = vec![];
         for len in 0..=(n + self.extra_len) {
@@ -805,7 +912,7 @@ pub struct CapacityTwin {
     pub huge: bool,
 }
 
-fn drain_order<Q: QueueLike>(q: &Q, hi: bool) -> Vec<Pair> {
+pub fn drain_order<Q: QueueLike>(q: &Q, hi: bool) -> Vec<Pair> {
     let mut c = q.clone();
     let mut out = vec![];
     for _ in 0..(q.q_len() + 2) {
@@ -1096,4 +1203,115 @@ impl<H: HB> Probe<H> for LateWrite {
     fn on_state(&self, q: &AnyQ<H>, m: &Model, _unordered: bool) -> Result<u64, String> {
         with_q!(q, x => self.run(x, m))
     }
+}
+
+/// C16 ("clear drops them all", drain drops what it does not yield) with a priority type that has NO
+/// drop glue (plain i32) and items that are tracked: every item must be dropped exactly once.
+pub fn drop_accounting_plain() -> Result<u64, String> {
+    use priority_queue::{DoublePriorityQueue, PriorityQueue};
+    let mut cases = 0u64;
+    macro_rules! run {
+        ($Q:ident, $kind:expr) => {
+            for n in 0..=6usize {
+                for scenario in 0..10 {
+                    for j in 0..=n {
+                        if j > 0 && !matches!(scenario, 1 | 2 | 6 | 7) {
+                            continue;
+                        }
+                        cases += 1;
+                        registry_begin();
+                        let mut allowed_leak = 0u32;
+                        {
+                            let mut q: $Q<Item, i32, FnvBuild> = $Q::with_default_hasher();
+                            for i in 0..n {
+                                q.push(Item::new(i as u32, 0), ((i * 3) % 5) as i32);
+                            }
+                            match scenario {
+                                0 => q.clear(),
+                                1 => {
+                                    // drain: j from the front, the rest dropped with the iterator
+                                    let mut d = q.drain();
+                                    for _ in 0..j {
+                                        drop(d.next());
+                                    }
+                                }
+                                2 => {
+                                    // drain leaked after j elements: the rest is owned by the leaked iterator
+                                    let mut d = q.drain();
+                                    for _ in 0..j {
+                                        drop(d.next());
+                                    }
+                                    allowed_leak = (n - j) as u32;
+                                    std::mem::forget(d);
+                                }
+                                3 => q.retain(|_, _| false),
+                                4 => while q.pop_any().is_some() {},
+                                5 => {
+                                    q.clear();
+                                    q.push(Item::new(100, 0), 1);
+                                    q.clear();
+                                }
+                                6 => {
+                                    let mut it = q.into_iter();
+                                    for _ in 0..j {
+                                        drop(it.next());
+                                    }
+                                    q = $Q::with_default_hasher();
+                                }
+                                7 => {
+                                    let mut it = q.into_sorted_iter();
+                                    for _ in 0..j {
+                                        drop(it.next());
+                                    }
+                                    q = $Q::with_default_hasher();
+                                }
+                                8 => {
+                                    let mut o: $Q<Item, i32, FnvBuild> = $Q::with_default_hasher();
+                                    o.push(Item::new(0, 9), 7);
+                                    o.push(Item::new(50, 9), 7);
+                                    q.append(&mut o);
+                                    q.clear();
+                                }
+                                _ => {
+                                    let c = q.clone();
+                                    drop(c);
+                                }
+                            }
+                            if scenario != 9 && scenario != 8 && (q.len() != 0 || q.iter().count() != 0) && scenario < 6 {
+                                registry_end();
+                                return Err(format!("{}: scenario {scenario} on {n} elements left {} elements", $kind, q.len()));
+                            }
+                        }
+                        let (created, live, dd) = registry_end();
+                        if dd > 0 {
+                            return Err(format!("{} with i32 priorities, scenario {scenario} (n={n}, j={j}): {dd} item(s) dropped twice", $kind));
+                        }
+                        if live != allowed_leak {
+                            return Err(format!(
+                                "{} with i32 priorities (no drop glue), scenario {scenario} ({}; n={n}, j={j}): {live} of {created} item(s) were never dropped (allowed: {allowed_leak})",
+                                $kind,
+                                ["clear", "drain partially consumed then dropped", "drain leaked", "retain none", "pop all", "clear, push, clear", "into_iter partially consumed", "into_sorted_iter partially consumed", "append then clear", "clone dropped"][scenario]
+                            ));
+                        }
+                    }
+                }
+            }
+        };
+    }
+    trait PopAny<T> {
+        fn pop_any(&mut self) -> Option<T>;
+    }
+    impl PopAny<(Item, i32)> for PriorityQueue<Item, i32, FnvBuild> {
+        fn pop_any(&mut self) -> Option<(Item, i32)> {
+            self.pop()
+        }
+    }
+    impl PopAny<(Item, i32)> for DoublePriorityQueue<Item, i32, FnvBuild> {
+        fn pop_any(&mut self) -> Option<(Item, i32)> {
+            self.pop_min()
+        }
+    }
+    run!(PriorityQueue, "PriorityQueue");
+    run!(DoublePriorityQueue, "DoublePriorityQueue");
+    Ok(cases)
 }
